@@ -3,7 +3,7 @@ import re
 
 import tables
 from astq import find_nodes
-from mirq import callee, origin_mentions_call, strip_refs
+from mirq import callee, origin_calls, origin_mentions_call, strip_refs
 
 EXPLANATION = (
     "Decides the table and ordering clauses: try_lfs_escape and try_lfs_unescape are mutually inverse bijections over LFS's ten "
@@ -90,10 +90,95 @@ def run(ctx, rep):
     # ---- R12.3 ordering in strip / escape (MIR)
     order_rules(ctx, rep)
     unit_rule(ctx, rep)
+    fast_path(ctx, rep)
     # "escaped text survives the codepage encode/decode path - carets included": the decoder must recognise markers wherever the
     # encoder puts them, also directly behind an escaped caret (C10's R10.7)
     from props import c10
     c10.marker_scan(ctx, rep)
+
+
+CHARWISE = r"core::str::<impl str>::(chars|contains|find|rfind)$"
+
+
+def fast_path(ctx, rep):
+    """R12.5 an early return of `escape` / `unescape` hands the input back untouched.  Its guard is evaluated (path table of the
+    function, the guard's character predicate through tabeval) on strings built around every character that needs the slow
+    path: for escape every reserved character and the caret, for unescape the caret.  If a guard holds for such a string the
+    function returns text with that character still raw."""
+    import tabeval
+    for fn, needs in (("escape", sorted(RESERVED) + ["^"]), ("unescape", ["^"])):
+        name = "insim_core::string::escaping::%s" % fn
+        b = ctx.mir.body(name)
+        if b is None:
+            rep.fail("R12.5", "%s:found" % fn, "escaping::%s not found" % fn)
+            continue
+        rows = b.decision_rows(0, 20000)
+        loopset = set()
+        for h in b.loop_heads():
+            loopset |= set(b.reach_within_iteration(h)) | {h}
+        fast = [r for r in rows if r[1][0] == "ret" and r[1][1] != "loop"
+                and not any(c2[4] in loopset for c in r[0] for c2 in origin_calls(c[4]))]      # returns decided before the loop is entered
+        rep.check("R12.5", "%s:early-returns" % fn, True, "", None, nontrivial=False, sample={"function": fn, "early_returns": len(fast), "rows": len(rows)})
+        if not fast:
+            continue
+
+        def extra_call(d, rd, args, m):
+            if re.search(r"core::str::<impl str>::chars$", d):
+                return m.ev.ev(args[0])
+            mm = re.search(r"core::str::<impl str>::(contains|find|rfind)$", d)
+            if mm and len(args) == 2:
+                seq = m.ev.ev(args[0])
+                if not (isinstance(seq, tuple) and seq[0] == "list"):
+                    raise tabeval.Unknown("text")
+                pat = args[1]
+                px = strip_refs(pat)
+
+                def test(x):
+                    if (px[0] == "agg" and px[1][0] == "closure") or px[0] == "fnconst":
+                        if px[0] == "fnconst":
+                            v = m.call(px[1], px[2], [("value", x)], m.ev)
+                        else:
+                            v = m.eval_body(px[1][1], m.closure_args(px, x, m.ev))
+                        if v is None or isinstance(v, tuple):
+                            raise tabeval.Unknown("pattern predicate")
+                        return bool(v)
+                    pv = m.ev.ev(pat)
+                    if isinstance(pv, int):
+                        return x == pv
+                    if isinstance(pv, tuple) and pv[0] == "list" and all(isinstance(y, int) for y in pv[1]):
+                        return x in pv[1]
+                    raise tabeval.Unknown("pattern %r" % (pv,))
+                order = list(enumerate(seq[1])) if mm.group(1) != "rfind" else list(enumerate(seq[1]))[::-1]
+                hit = [i for i, x in order if test(x)]
+                if mm.group(1) == "contains":
+                    return 1 if hit else 0
+                return ("opt", True, hit[0]) if hit else ("opt", False, None)
+            return None
+        m = tabeval.Model(ctx, b, None, local_prefix="insim_core::string::", extra_call=extra_call)
+        for ch in needs:
+            bad, why = None, None
+            for text in (ch, "a" + ch, ch + "a", "a" + ch + "a"):
+                m.args = {1: ("list", tuple(ord(x) for x in text))}
+                m.ev.reset()
+                for r in fast:
+                    try:
+                        if all(m.ev.cond_holds(c) for c in r[0]):
+                            bad = text
+                            break
+                    except tabeval.Panic:
+                        continue
+                    except tabeval.Unknown as ex:
+                        why = str(ex)
+                        break
+                if bad or why:
+                    break
+            if why:
+                rep.fail("R12.5", "%s:%s:undecided" % (fn, ch), "the guard of an early return of %s could not be evaluated (%s)" % (fn, why), b.loc())
+            else:
+                rep.check("R12.5", "%s:%s" % (fn, ch), bad is None,
+                          "%s(%r) takes an early return that hands the text back untouched: %r stays raw in the output" % (fn, bad, ch), b.loc(),
+                          sample={"function": fn, "character": ch, "early_return_taken": False})
+    rep.floor("R12.5", 10)
 
 
 BYTE_OFFSETS = r"core::str::<impl str>::(find|rfind|len|floor_char_boundary|ceil_char_boundary)$|alloc::string::String::len$|<impl char>::len_utf8$|CharIndices"
